@@ -28,6 +28,7 @@ type Draw struct {
 	W    uint8  `json:"-"`
 	Val  uint64 `json:"v"`
 	N    int    `json:"n,omitempty"`
+	Off  int64  `json:"-"`
 }
 
 type Violation struct {
@@ -721,6 +722,7 @@ func (wk *Worker) tapeFromDomains() []Draw {
 			} else {
 				tape[i].Val = 0
 			}
+			tape[i].Val += uint64(d.Off)
 		}
 	}
 	return tape
@@ -748,6 +750,7 @@ func (wk *Worker) tapeFromSolver() []Draw {
 			} else if dom, ok := ps.domains[d.Sym]; ok {
 				tape[i].Val = uint64(niceByte(dom))
 			}
+			tape[i].Val += uint64(d.Off)
 		}
 	}
 	return tape
@@ -834,7 +837,7 @@ func (wk *Worker) finish(res *PathResult) {
 	vals := map[int]uint64{}
 	for _, d := range tape {
 		if d.Sym >= 0 {
-			vals[d.Sym] = d.Val
+			vals[d.Sym] = d.Val - uint64(d.Off)
 		}
 	}
 	env := &evalEnv{gen: newEvalGen(), get: func(id int, w uint8) uint64 { return vals[id] }}
